@@ -119,7 +119,7 @@ CHECKS = {
         technique="Coq proof (total decision function with explicit Crash/OsError constructors proved unreachable; consistency by case analysis over the port search) + exhaustive cross-product correspondence"),
 
     "C04": dict(
-        text=("35 theorems (Props/C04.v). Proved for every initial kernel state (foreign rules, other instances), every plan, every cut and every "
+        text=("41 theorems (Props/C04.v). Proved for every initial kernel state (foreign rules, other instances), every plan, every cut and every "
               "fault set (nat/nft/tproxy): everything not named for the session's ports is unchanged and in order at every intermediate state; a cut "
               "before GO issues no command; once no own object remains the final state is exactly the initial one; the chain-listing parse (decode as ASCII with errors='replace', split at line feeds, startswith) is exact membership for tables whose foreign rules and chain names carry ARBITRARY bytes without line feed (c04_chain_exists_exact, c04_chain_exists_bytes_exact; with a line feed in a foreign comment it can be forged: c04_listing_lf_refuted, an observation) — i.e. exact "
               "membership (sshuttle-1230 vs sshuttle-12300). The clause 'every exit path: nothing own remains and a later session can start, for every k-th failing "
@@ -129,7 +129,7 @@ CHECKS = {
               "(c04_pf_identity_full_refuted; known finding F43); pf exits with failing commands are covered by the harness only. Logging is total: helpers.log returns for every OSError/ValueError raised by its streams, and then the session with all its log points "
               "(debug1 before every command, log after a failed nonfatal command, every debug call of firewall.main incl. inside finally) issues the same commands and ends in the same state as without logging, for every verbosity and every outcome of every stream operation "
               "(c04_log_total, c04_log_faults_invisible, c04_nat_all_exits_hangup; the narrowed clause of seeded change C04-b is refuted by c04_log_narrow_refuted); as-found tproxy and pf/FreeBSD refuted with witnesses (F9, F17: "
-              "fixed; F41, F42, F43: known findings). Tied to /repo by running the real firewall.main + real method modules with every external command answered by the extracted kernel model as a co-process, for every cut and every fault index, under a logging environment (verbosity 0/1/2 x k-th stderr/stdout operation raising OSError(EIO)/BrokenPipeError/ValueError/..., once or from then on); real helpers.log vs the model's log_call for every exception class and position; fail-closed ast check of its except clauses."),
+              "fixed; F41, F42, F43: known findings). The waiting phase is invisible: a read error of any class at the cut, a failing STARTED write, a failing hosts rewrite/restore and a failing DNS-cache flush leave commands, final state and pf context unchanged for every method, cut, fault set and state (c04_wait_phase_invisible, c04_started_failure_is_cut, c04_read_error_is_eof; Model/FwEnv.v); a raising signal handler is harmless for nft (c04_signal_nft_harmless) and was not for nat/tproxy/pf as found (c04_signal_relay_asfound_refuted = F120, fixed). Tied to /repo by running the real firewall.main + real method modules with every external command answered by the extracted kernel model as a co-process, for every cut and every fault index, incl. the REAL setup_daemon + firewall.main in a forked child receiving real SIGHUP/SIGINT/SIGTERM at every phase (harness/props/c04_sig.py), under a logging environment (verbosity 0/1/2 x k-th stderr/stdout operation raising OSError(EIO)/BrokenPipeError/ValueError/..., once or from then on); real helpers.log vs the model's log_call for every exception class and position; fail-closed ast check of its except clauses."),
         note="modelled not verified: iptables/nft/pfctl command semantics (DESIGN Appendix B; not validated against the real kernel in this check), SIGKILL/SIGTERM modelled as a dialogue cut. The all-exits clause is general for every iptables/nft method (nat with and without owner match, tproxy, nft); pf: general fault-free identity theorem, exits with failing commands by the harness only.",
         design="DESIGN.md §5 C04",
         technique="Coq proof (frame invariant over all command sequences; general all-exits theorems by simulation to an abstract own-object state; product state with a MARK-rule counter for the owner match; pf anchor-state model) + trace/state correspondence with fault injection at every command index"),
